@@ -4,6 +4,7 @@ package fw
 
 import (
 	"bytes"
+	"time"
 
 	"github.com/named-data/ndnd/fw/defn"
 	"github.com/named-data/ndnd/fw/dispatch"
@@ -43,16 +44,17 @@ func specPktName(pkt *defn.Pkt) enc.Name {
 }
 
 // Ghost send trace (C01/C02): how many packets have been handed to faces, and the last one.
-var verifSends int        // number of SendPacket calls so far
-var verifLastFace uint64  // face of the last SendPacket call
-var verifLastToken []byte // PIT token attached to the last packet sent
+var verifSends int               // number of SendPacket calls so far
+var verifLastFace uint64         // face of the last SendPacket call
+var verifLastToken []byte        // PIT token attached to the last packet sent
 var verifSentSet map[uint64]bool // set of faces a packet has been handed to
-var verifCsInserts int            // number of Data packets handed to the Content Store so far
+var verifCsInserts int           // number of Data packets handed to the Content Store so far
 
 // Every transmission goes through dispatch.Face.SendPacket. Its precondition is the scope rule, so every call site
 // in the forwarder, present or added later, carries the obligation "not (non-local face and /localhost name)".
 //
 //@ func (github.com/named-data/ndnd/fw/dispatch.Face).SendPacket
+//@   ensures [clock-kept] ghostFwClock == old(ghostFwClock)
 //@   requires out.Pkt != nil && out.Pkt.L3 != nil && (out.Pkt.L3.Interest == nil) != (out.Pkt.L3.Data == nil)
 //@   requires !(self.Scope() == defn.NonLocal && specIsLocalhost(specPktName(out.Pkt)))
 //@   modifies verifSends, verifLastFace, verifLastToken, verifSentSet[*]
@@ -86,6 +88,7 @@ func specIsNexthop(nexthops []*table.FibNextHopEntry, n int, k uint64) bool {
 //@   ensures [sent-iff-usable] (verifSends == old(verifSends)+1) == (dispatch.GetFace(nexthop) != nil && !(dispatch.GetFace(nexthop).Scope() == defn.NonLocal && specIsLocalhost(packet.L3.Data.NameV)))
 
 //@ func (*Thread).processOutgoingInterest
+//@   ensures [clock-kept] ghostFwClock == old(ghostFwClock)
 //@   requires packet != nil && packet.L3 != nil && packet.L3.Interest != nil && packet.L3.Data == nil && pitEntry != nil
 //@   modifies t.NOutInterests, all(table.PitOutRecord), all(table.basePitEntry), verifSends, verifLastFace, verifLastToken, verifSentSet[*]
 //@   ensures result ==> !(dispatch.GetFace(nexthop).Scope() == defn.NonLocal && specIsLocalhost(packet.L3.Interest.NameV))
@@ -99,6 +102,31 @@ func specIsNexthop(nexthops []*table.FibNextHopEntry, n int, k uint64) bool {
 
 var _ = dispatch.GetFace
 var _ table.PitEntry
+
+// Clock (A-CLOCK), as in fw/table: time.Now() returns the next reading of an arbitrary clock; ghostFwClock counts the
+// readings taken by code of this package (the counter does not wrap), specFwClockAt(i) is the i-th reading;
+// Add/After/Before are uninterpreted functions of their arguments (no order axiom is needed for the clauses below).
+var ghostFwClock int
+
+func specFwClockAt(i int) time.Time { return specFwClockAt(i) }
+
+//@ func time.Now
+//@   trusted
+//@   option no-alloc
+//@   modifies ghostFwClock
+//@   ensures result == specFwClockAt(old(ghostFwClock)) && ghostFwClock == old(ghostFwClock)+1 && ghostFwClock > old(ghostFwClock)
+
+//@ func (time.Time).Add
+//@   trusted
+//@   pure
+
+//@ func (time.Time).After
+//@   trusted
+//@   pure
+
+//@ func (time.Time).Before
+//@   trusted
+//@   pure
 
 // The Content Store as the pipelines see it: every insertion is counted in ghost state, so that "a /localhost Data from
 // a non-local face is not cached" is a postcondition of the incoming Data pipeline.
@@ -147,6 +175,7 @@ var _ table.PitEntry
 //@   ensures [others-kept] forall(func(k uint64) bool { return k != nexthop ==> mapHas(pitEntry.(*table.nameTreePitEntry).inRecords, k) == old(mapHas(pitEntry.(*table.nameTreePitEntry).inRecords, k)) && pitEntry.(*table.nameTreePitEntry).inRecords[k] == old(pitEntry.(*table.nameTreePitEntry).inRecords[k]) })
 
 //@ func (*StrategyBase).SendInterest
+//@   ensures [clock-kept] ghostFwClock == old(ghostFwClock)
 //@   requires s.thread != nil && packet != nil && packet.L3 != nil && packet.L3.Interest != nil && packet.L3.Data == nil && pitEntry != nil
 //@   modifies s.thread.NOutInterests, all(table.PitOutRecord), all(table.basePitEntry), verifSends, verifLastFace, verifLastToken, verifSentSet[*]
 //@   ensures result ==> verifSends == old(verifSends)+1 && verifLastFace == nexthop && !(nexthop == inFace && dispatch.GetFace(nexthop).LinkType() != defn.AdHoc)
@@ -200,7 +229,10 @@ var _ table.PitEntry
 // Incoming Interest, strategy step. Nothing is sent to a face that is not among the FIB next hops handed to the strategy.
 // Best-route sends at most one copy, to a usable next hop of lowest cost; multicast sends to every usable next hop.
 // The first Interest (no out-record yet, so nothing to suppress) with a usable next hop is forwarded.
-// Suppression itself compares wall-clock times and is not specified here (A-CLOCK).
+// Suppression (clock model below, A-CLOCK): [suppression] the Interest is forwarded only if every out-record with a different
+// nonce was found OUTSIDE the suppression interval (timestamp + interval not after the reading) at a clock reading taken
+// during the call, i.e. a different-nonce record that is still inside the interval at the readings taken suppresses it;
+// [outside-interval-not-suppressed] records that are outside the interval at every reading taken suppress nothing.
 //
 //@ func (*BestRoute).AfterReceiveInterest
 //@   requires s.thread != nil && packet != nil && packet.L3 != nil && packet.L3.Interest != nil && packet.L3.Data == nil && packet.L3.Interest.NonceV != nil
@@ -211,8 +243,14 @@ var _ table.PitEntry
 //@   ensures [only-fib-faces] forall(func(k uint64) bool { return mapHas(verifSentSet, k) == (old(mapHas(verifSentSet, k)) || (verifSends == old(verifSends)+1 && k == verifLastFace)) })
 //@   ensures [lowest-cost-usable] verifSends == old(verifSends)+1 ==> existsIn(0, len(nexthops), func(i int) bool { return nexthops[i].Nexthop == verifLastFace && specUsable(packet, verifLastFace, inFace) && forallIn(0, len(nexthops), func(j int) bool { return specUsable(packet, nexthops[j].Nexthop, inFace) ==> nexthops[i].Cost <= nexthops[j].Cost }) })
 //@   ensures [first-forwarded] old(forall(func(k uint64) bool { return !mapHas(pitEntry.(*table.nameTreePitEntry).outRecords, k) })) && existsIn(0, len(nexthops), func(i int) bool { return specUsable(packet, nexthops[i].Nexthop, inFace) }) ==> verifSends == old(verifSends)+1
+//@   ensures [suppression] verifSends != old(verifSends) ==> forall(func(k uint64) bool { return old(mapHas(pitEntry.(*table.nameTreePitEntry).outRecords, k) && pitEntry.(*table.nameTreePitEntry).outRecords[k].LatestNonce != *packet.L3.Interest.NonceV) ==> existsIn(old(ghostFwClock), ghostFwClock, func(i int) bool { return !old(pitEntry.(*table.nameTreePitEntry).outRecords[k].LatestTimestamp).Add(BestRouteSuppressionTime).After(specFwClockAt(i)) }) })
+//@   ensures [outside-interval-not-suppressed] forall(func(k uint64, i int) bool { return old(mapHas(pitEntry.(*table.nameTreePitEntry).outRecords, k) && pitEntry.(*table.nameTreePitEntry).outRecords[k].LatestNonce != *packet.L3.Interest.NonceV) && old(ghostFwClock) <= i && i < ghostFwClock ==> !old(pitEntry.(*table.nameTreePitEntry).outRecords[k].LatestTimestamp).Add(BestRouteSuppressionTime).After(specFwClockAt(i)) }) && existsIn(0, len(nexthops), func(i int) bool { return specUsable(packet, nexthops[i].Nexthop, inFace) }) ==> verifSends == old(verifSends)+1
+//@   loop 1 invariant ghostFwClock >= old(ghostFwClock) && pitEntry.(*table.nameTreePitEntry).outRecords == old(pitEntry.(*table.nameTreePitEntry).outRecords)
+//@   loop 1 invariant forall(func(k uint64) bool { return mapHas(pitEntry.(*table.nameTreePitEntry).outRecords, k) ==> pitEntry.(*table.nameTreePitEntry).outRecords[k] != nil && pitEntry.(*table.nameTreePitEntry).outRecords[k].LatestNonce == old(pitEntry.(*table.nameTreePitEntry).outRecords[k].LatestNonce) && pitEntry.(*table.nameTreePitEntry).outRecords[k].LatestTimestamp == old(pitEntry.(*table.nameTreePitEntry).outRecords[k].LatestTimestamp) })
+//@   loop 1 invariant forall(func(k uint64) bool { return visited(k) && mapHas(pitEntry.(*table.nameTreePitEntry).outRecords, k) && old(pitEntry.(*table.nameTreePitEntry).outRecords[k].LatestNonce) != *packet.L3.Interest.NonceV ==> existsIn(old(ghostFwClock), ghostFwClock, func(i int) bool { return !old(pitEntry.(*table.nameTreePitEntry).outRecords[k].LatestTimestamp).Add(BestRouteSuppressionTime).After(specFwClockAt(i)) }) })
 //@   loop 1 invariant verifSends == old(verifSends)
 //@   loop 2 invariant verifSends == old(verifSends) && verifLastFace == old(verifLastFace)
+//@   loop 2 invariant forall(func(k uint64) bool { return old(mapHas(pitEntry.(*table.nameTreePitEntry).outRecords, k) && pitEntry.(*table.nameTreePitEntry).outRecords[k].LatestNonce != *packet.L3.Interest.NonceV) ==> existsIn(old(ghostFwClock), ghostFwClock, func(i int) bool { return !old(pitEntry.(*table.nameTreePitEntry).outRecords[k].LatestTimestamp).Add(BestRouteSuppressionTime).After(specFwClockAt(i)) }) })
 //@   loop 2 invariant forall(func(k uint64) bool { return mapHas(verifSentSet, k) == old(mapHas(verifSentSet, k)) })
 //@   loop 2 invariant forallIn(0, len(nexthops), func(i int) bool { return nexthops[i] != nil })
 //@   loop 2 invariant forallIn(0, len(nexthops), func(a int) bool { return forallIn(0, len(nexthops), func(b int) bool { return a < b ==> nexthops[a].Cost <= nexthops[b].Cost }) })
@@ -227,7 +265,13 @@ var _ table.PitEntry
 //@   modifies s.thread.NOutInterests, all(table.PitOutRecord), all(table.basePitEntry), verifSends, verifLastFace, verifLastToken, verifSentSet[*]
 //@   ensures [only-fib-faces] forall(func(k uint64) bool { return mapHas(verifSentSet, k) && !old(mapHas(verifSentSet, k)) ==> existsIn(0, len(nexthops), func(i int) bool { return nexthops[i].Nexthop == k && specUsable(packet, k, inFace) }) })
 //@   ensures [all-usable] old(forall(func(k uint64) bool { return !mapHas(pitEntry.(*table.nameTreePitEntry).outRecords, k) })) ==> forallIn(0, len(nexthops), func(i int) bool { return specUsable(packet, nexthops[i].Nexthop, inFace) ==> mapHas(verifSentSet, nexthops[i].Nexthop) })
+//@   ensures [suppression] verifSends != old(verifSends) ==> forall(func(k uint64) bool { return old(mapHas(pitEntry.(*table.nameTreePitEntry).outRecords, k) && pitEntry.(*table.nameTreePitEntry).outRecords[k].LatestNonce != *packet.L3.Interest.NonceV) ==> existsIn(old(ghostFwClock), ghostFwClock, func(i int) bool { return !old(pitEntry.(*table.nameTreePitEntry).outRecords[k].LatestTimestamp).Add(MulticastSuppressionTime).After(specFwClockAt(i)) }) })
+//@   ensures [outside-interval-not-suppressed] forall(func(k uint64, i int) bool { return old(mapHas(pitEntry.(*table.nameTreePitEntry).outRecords, k) && pitEntry.(*table.nameTreePitEntry).outRecords[k].LatestNonce != *packet.L3.Interest.NonceV) && old(ghostFwClock) <= i && i < ghostFwClock ==> !old(pitEntry.(*table.nameTreePitEntry).outRecords[k].LatestTimestamp).Add(MulticastSuppressionTime).After(specFwClockAt(i)) }) ==> forallIn(0, len(nexthops), func(i int) bool { return specUsable(packet, nexthops[i].Nexthop, inFace) ==> mapHas(verifSentSet, nexthops[i].Nexthop) })
+//@   loop 1 invariant ghostFwClock >= old(ghostFwClock) && pitEntry.(*table.nameTreePitEntry).outRecords == old(pitEntry.(*table.nameTreePitEntry).outRecords)
+//@   loop 1 invariant forall(func(k uint64) bool { return mapHas(pitEntry.(*table.nameTreePitEntry).outRecords, k) ==> pitEntry.(*table.nameTreePitEntry).outRecords[k] != nil && pitEntry.(*table.nameTreePitEntry).outRecords[k].LatestNonce == old(pitEntry.(*table.nameTreePitEntry).outRecords[k].LatestNonce) && pitEntry.(*table.nameTreePitEntry).outRecords[k].LatestTimestamp == old(pitEntry.(*table.nameTreePitEntry).outRecords[k].LatestTimestamp) })
+//@   loop 1 invariant forall(func(k uint64) bool { return visited(k) && mapHas(pitEntry.(*table.nameTreePitEntry).outRecords, k) && old(pitEntry.(*table.nameTreePitEntry).outRecords[k].LatestNonce) != *packet.L3.Interest.NonceV ==> existsIn(old(ghostFwClock), ghostFwClock, func(i int) bool { return !old(pitEntry.(*table.nameTreePitEntry).outRecords[k].LatestTimestamp).Add(MulticastSuppressionTime).After(specFwClockAt(i)) }) })
 //@   loop 1 invariant verifSends == old(verifSends)
 //@   loop 2 invariant forall(func(k uint64) bool { return old(mapHas(verifSentSet, k)) ==> mapHas(verifSentSet, k) })
+//@   loop 2 invariant forall(func(k uint64) bool { return old(mapHas(pitEntry.(*table.nameTreePitEntry).outRecords, k) && pitEntry.(*table.nameTreePitEntry).outRecords[k].LatestNonce != *packet.L3.Interest.NonceV) ==> existsIn(old(ghostFwClock), ghostFwClock, func(i int) bool { return !old(pitEntry.(*table.nameTreePitEntry).outRecords[k].LatestTimestamp).Add(MulticastSuppressionTime).After(specFwClockAt(i)) }) })
 //@   loop 2 invariant forall(func(k uint64) bool { return mapHas(verifSentSet, k) && !old(mapHas(verifSentSet, k)) ==> existsIn(0, rangeindex+1, func(i int) bool { return nexthops[i].Nexthop == k && specUsable(packet, k, inFace) }) })
 //@   loop 2 invariant forallIn(0, rangeindex+1, func(i int) bool { return specUsable(packet, nexthops[i].Nexthop, inFace) ==> mapHas(verifSentSet, nexthops[i].Nexthop) })
